@@ -338,7 +338,13 @@ func ClientRun(osenv *rsyncos.Env, opts *rsyncopts.Options, conn io.ReadWriter, 
 			}
 		}
 
-		stats, err := st.Do(crd, cwr, FileSystemRoot, paths, nil)
+		// We are the sender, so our filter rules apply to our file list.
+		exclusionList, err := sender.ParseFilterRules(opts.FilterRules())
+		if err != nil {
+			return nil, err
+		}
+
+		stats, err := st.Do(crd, cwr, FileSystemRoot, paths, exclusionList)
 		if err != nil {
 			return nil, err
 		}
